@@ -133,6 +133,32 @@ def slots(ps, a, b, n):
     q = [None] * (n - 2) + q
   return q
 
+def alloc_like(dim, k, pairs):
+  n = len(pairs)
+  budget = n * k
+  assert budget >= n, (budget, n)
+  srt = sorted(pairs, key=lambda x: x[1], reverse=True)
+  rem = []
+  acc = 0
+  for _, s in reversed(srt):
+    acc = acc + s
+    rem.append(acc)
+  rem.reverse()
+  d = {}
+  for p, t in zip(srt, rem):
+    d.update({p[0]: int((p[1] * t) // 1) + 1})
+  for key in d:
+    assert d[key] <= dim * 50, key
+  tot = sum(d.values())
+  left = budget
+  for (key, _) in srt:
+    d[key] = min(d[key] + 1, dim)
+    left = left - 1
+    if left <= 0:
+      break
+  a, _, c = (tot, 0, left)
+  return (d, a, c, [v for v in d.values()], [kk for kk in d.keys()])
+
 def branch_local(xs):
   out = []
   for x in xs:
@@ -159,6 +185,8 @@ SYNTH_TARGETS = [
     Target("synth.py", "Obj.maybe", "objMaybe", [("xs", "list[list[int]]")], "list[list[int]]"),
     Target("synth.py", "Obj.user", "objUser", [("k", "int"), ("ls", "list[list[int]]"), ("n", "int")],
            "tuple[int,bool,bool,list[int],list[list[int]]]", inputs={"self._k": "k"}),
+    Target("synth.py", "alloc_like", "allocLike", [("dim", "int"), ("k", "int"), ("pairs", "list[tuple[int,real]]")],
+           "tuple[dict[int,int],int,int,list[int],list[int]]"),
     Target("synth.py", "slots", "slots", [("ps", "list[option[int]]"), ("a", "int"), ("b", "int"), ("n", "int")], "list[option[int]]"),
 ]
 
@@ -177,12 +205,14 @@ SYNTH_INPUTS = {
     "Obj.helper": [(k, d) for k in (0, 2, -1) for d in (0, 3)],
     "Obj.maybe": [(xs,) for xs in ([], [[1]], [[1], [2, 3]], [[1], [2], [3], [4]])],
     "Obj.user": [(k, ls, n) for k in (0, 3) for ls in ([], [[2]], [[1, 2], [3]], [[1, 2], [3, 4], [5]], [[4], [], [1]]) for n in (-1, 0, 2)],
+    "alloc_like": [(dim, k, pairs) for dim in (2, 5) for k in (0, 1, 3)
+                   for pairs in ([], [(7, 2)], [(1, 3), (2, 3), (3, 1)], [(4, 1), (9, 5), (2, 5), (6, 0)], [(1, 9), (2, 9), (3, 30)])],
     "slots": [(ps, a, b, n) for ps in ([], [0, None, 2], [5, 6, 7, 8]) for a in (-5, -1, 0, 1, 2) for b in (-2, 0, 1, 3, 9) for n in (0, 3, 4)],
 }
 
 BAD = {
     "while": "def f(n):\n  while n > 0:\n    n -= 1\n  return n\n",
-    "break": "def f(xs):\n  s = 0\n  for x in xs:\n    if x > 2:\n      break\n    s += x\n  return s\n",
+    "continue": "def f(xs):\n  s = 0\n  for x in xs:\n    if x > 2:\n      continue\n    s += x\n  return s\n",
     "true division": "def f(n):\n  return n / 2\n",
     "power": "def f(n):\n  return n ** 2\n",
     "float": "def f(n):\n  return n * 1.5\n",
@@ -193,8 +223,8 @@ BAD = {
     "string": "def f(n):\n  return 'a'\n",
     "type change at merge": "def f(n):\n  y = 1\n  if n > 0:\n    y = [1]\n  return n\n",
     "in": "def f(n):\n  return n in [1, 2]\n",
-    "assert inside a loop": "def f(xs):\n  s = 0\n  for x in xs:\n    assert x > 0\n    s += x\n  return s\n",
-    "tuple assign": "def f(n):\n  a, b = n, n\n  return a\n",
+    "sort without reverse": "def f(xs):\n  return sorted(xs, key=lambda x: x)\n",
+    "tuple assign of different length": "def f(n):\n  a, b = (n, n, n)\n  return a\n",
     "two generators": "def f(n):\n  return [i + j for i in range(n) for j in range(n)]\n",
 }
 
@@ -211,6 +241,8 @@ def to_plain(v):
         return [to_plain(x) for x in v]
     if isinstance(v, tuple):
         return tuple(to_plain(x) for x in v)
+    if isinstance(v, dict):
+        return [(to_plain(a), to_plain(b)) for a, b in v.items()]
     if v is None:
         return None
     if hasattr(v, "__dataclass_fields__"):
@@ -221,8 +253,10 @@ def to_plain(v):
 def lit(v, t):
     """Lean literal of a plain Python value at translator type t."""
     t = py2lean.res(t)
-    if t == "int":
+    if t in ("int", "real"):     # opaque scalars are run at R := Int (see INT_OPS)
         return f"({v} : Int)"
+    if isinstance(t, tuple) and t[0] == "dict":
+        return "([" + ", ".join(f"({lit(a, t[1][0])}, {lit(b, t[1][1])})" for a, b in v) + "] : List (Int × Int))"
     if isinstance(t, tuple) and t[0] == "option":
         return "none" if v is None else f"(some {lit(v, t[1])})"
     if t == "bool":
@@ -230,7 +264,7 @@ def lit(v, t):
     if t == "arr":
         t = ("list", "int")
     if t[0] == "list":
-        return "([" + ", ".join(lit(x, t[1]) for x in v) + f"] : {lean_ty(t)})"
+        return "([" + ", ".join(lit(x, t[1]) for x in v) + f"] : {lean_ty(t).replace('R', 'Int')})"
     if t[0] == "tuple":
         assert len(v) == len(t[1]), (v, t)
         return "(" + ", ".join(lit(x, tt) for x, tt in zip(v, t[1])) + ")"
@@ -242,7 +276,7 @@ def lit(v, t):
 def lean_eval(defs_text, checks):
     """checks: [(label, lean Bool expression)] -> list of labels that did not print `true`."""
     with tempfile.NamedTemporaryFile("w", suffix=".lean", dir=kit.WORK, delete=False) as f:
-        f.write(defs_text + "\n")
+        f.write(defs_text + "\n" + INT_OPS)
         for _, c in checks:
             f.write(f"#eval ({c})\n")
         path = f.name
@@ -257,8 +291,13 @@ def lean_eval(defs_text, checks):
     return [lab for (lab, _), l in zip(checks, lines) if l != "true"]
 
 
+INT_OPS = ("def pyIntOps : PrecondVerif.Gen.Py.RealOps Int := { add := (· + ·), mul := (· * ·), div := Int.fdiv, ofInt := id, "
+           "floor := id, truthy := fun x => decide (x ≠ 0), lt := fun a b => decide (a < b) }\n")
+
+
 def call_text(lean_name, target, args):
-    return f"PrecondVerif.Gen.{lean_name} " + " ".join(lit(a, parse_type(ty)) for a, (_, ty) in zip(args, target.params))
+    real = any("real" in ty for _, ty in target.params) or "real" in target.ret
+    return f"PrecondVerif.Gen.{lean_name} " + ("pyIntOps " if real else "") + " ".join(lit(a, parse_type(ty)) for a, (_, ty) in zip(args, target.params))
 
 
 def main():
